@@ -2,15 +2,15 @@
    every caller has finished its script (every awaiting task was woken, every blocked sync caller was released) *)
 From stdpp Require Import list numbers option.
 From RecordUpdate Require Import RecordUpdate.
-From L2 Require Import Model Base Own Jobs Shape DwInv Pool OpShape Fut Wake WakeInv WakeLem WakeStep1 Term Task TaskInv.
+From L2 Require Import Model Base Own Jobs Shape DwInv Pool OpShape Fut Wake WakeInv WakeLem WakeStep1 Term Task TaskInv YTask.
 #[global] Unset Lia Cache.
 
-Record Inv_all2 (s : state) : Prop := { i2_all : Inv_all s; i2_op : Inv_op s; i2_task : Inv_task s }.
+Record Inv_all2 (s : state) : Prop := { i2_all : Inv_all s; i2_op : Inv_op s; i2_task : Inv_task s; i2_ytw : Inv_ytw s }.
 Lemma init_all2 scripts npool nev : Inv_all2 (init scripts npool nev).
-Proof. split; [apply init_all|apply init_op|apply init_task]. Qed.
+Proof. split; [apply init_all|apply init_op|apply init_task|apply init_ytw]. Qed.
 Lemma step_all2 T (HA : all_cond T) s a s' : Inv_all2 s -> step T s a = Some s' -> Inv_all2 s'.
 Proof.
-  intros [H1 H2 H3] Hs. split; [by eapply step_all|by eapply step_op|].
+  intros [H1 H2 H3 H4] Hs. split; [by eapply step_all|by eapply step_op| |by eapply step_ytw].
   eapply step_task; [apply (ia_own _ H1)|apply (ia_fut _ H1)|exact H2|exact H3|exact Hs].
 Qed.
 Theorem reachable_all2 T (HA : all_cond T) scripts npool nev tr s : run T (init scripts npool nev) tr = Some s -> Inv_all2 s.
@@ -43,6 +43,20 @@ Section Terminal.
       rewrite (term_quiet T s HI Hterm Hnp toponly) in Hq; [lia|]. intros ? ?. by right.
   Qed.
 
+  (* the owner of a SyncFuture is never left asleep after a Pending poll: the wake-up it waits for is under way *)
+  Lemma term_no_ypark c y st u rest : stacks s !! c = Some (FY YPpark y st u :: rest) -> False.
+  Proof.
+    intros Hc. destruct (stacks_actor s c _ Hc) as (ac & Ea & Est).
+    pose proof (Hterm c) as Hs. unfold step in Hs. rewrite Ea in Hs. cbn in Hs. rewrite Est in Hs. cbn in Hs.
+    destruct (token ac) eqn:Etok; [done|].
+    assert (Htk : tokb s c = false) by (unfold tokb; by rewrite (toks_lookup _ _ _ Ea), Etok).
+    pose proof (i2_ytw _ H2 c _ _ Hc ltac:(left)) as Hy. cbn [yob] in Hy.
+    assert (Hq : forall e, twr s c e = false).
+    { intros e. unfold twr. rewrite Htk, (term_quiet T s HI Hterm Hnp (is_unpark c)), (term_npwake T s HI Hterm Hnp), (term_unfreg s Hfired) by (intros []; try done; by left). done. }
+    destruct st as [b|rs]; cbn [yguar] in Hy; [by rewrite Hq in Hy|]. destruct rs as [|p b]; [done|]. destruct p; try done; [by rewrite Hq in Hy|].
+    unfold twr2 in Hy. by rewrite Htk, (term_quiet T s HI Hterm Hnp (is_unpark c)), (term_npwake T s HI Hterm Hnp), (term_unfreg s Hfired) in Hy by (intros []; try done; by left).
+  Qed.
+
   Theorem terminal_complete c st : stacks s !! c = Some st -> st = [FTop []] \/ st = [FPIdle].
   Proof.
     intros Hc. destruct (term_top T s HI Hterm Hnp c st Hc) as (fr & rest & -> & Hb).
@@ -68,6 +82,7 @@ Section Terminal.
     - (* FROpark j *) exfalso. pose proof (runner_owned s c _ (ia_own _ HI) Hc ltac:(cbn; lia)) as Ho.
       by rewrite (term_no_runner T s HI Hterm Hnp Hfired) in Ho.
     - (* FPIdle *) right. by rewrite (op_bot_alone s c _ rest (i2_op _ H2) Hc eq_refl).
+    - (* FY YPpark: the owner of a SyncFuture, asleep after a Pending poll *) exfalso. destruct pc; try done. by eapply term_no_ypark.
   Qed.
 End Terminal.
 
